@@ -2049,7 +2049,8 @@ fn main() {
                     case_id: i as i64,
                     what: format!("the provider answers every request with the same tool round (tool_choice {:?}, stateless_history {}); the run asked {n} times - {gave_up} (end frames: {ended:?}); the tool budget of 32 calls allows at most {REQUEST_BOUND} requests: against a provider that never stops this run never ends", p.choice, p.stateless),
                     class: "provider-requests-unbounded".into(),
-                    replay: cj.clone(),
+                    // the one activity is enough to replay it
+                    replay: serde_json::to_value(Case { acts: vec![a_.clone()], ..c.clone() }).unwrap_or(cj.clone()),
                 });
                 break;
             }
